@@ -286,6 +286,40 @@ func oidEncodeSigners(s []oidSigner) []byte {
 	return sink.Bytes()
 }
 
+// oidDecodeSigners reads a signer list the way the contract does: a count and,
+// per signer, an id and an index, every integer a var-bytes string holding the
+// number; bytes after the last signer are ignored. ok=false if the bytes end early.
+func oidDecodeSigners(b []byte) (out []oidSigner, ok bool) {
+	src := common.NewZeroCopySource(b)
+	num := func() (uint64, bool) {
+		v, _, irregular, eof := src.NextVarBytes()
+		if irregular || eof {
+			return 0, false
+		}
+		n := common.BigIntFromNeoBytes(v)
+		if n.Sign() < 0 || !n.IsUint64() {
+			return 0, false
+		}
+		return n.Uint64(), true
+	}
+	n, ok := num()
+	if !ok {
+		return nil, false
+	}
+	for i := uint64(0); i < n; i++ {
+		id, _, irregular, eof := src.NextVarBytes()
+		if irregular || eof {
+			return nil, false
+		}
+		idx, ok := num()
+		if !ok {
+			return nil, false
+		}
+		out = append(out, oidSigner{id: append([]byte(nil), id...), index: uint64(uint32(idx))})
+	}
+	return out, true
+}
+
 func oidSignersString(s []oidSigner) string {
 	out := "<"
 	for i, v := range s {
